@@ -46,6 +46,32 @@ def behaviour_ok(spec, got, level):
     return cls == want and o == wo and e == we
 
 
+def ir_of_source(src):
+    """the structure of the emitted main(): what the compiler model predicts as its IR"""
+    import re
+    m = re.search(r"while state < (\d+) \{", src)
+    blocks = int(m.group(1)) if m else 0
+    st = re.findall(r"\n    state = (\d+);", src)
+    last = re.findall(r"\n    last = Option::(None|Some\((\d+)\));", src)
+    cur = re.findall(r"\n    cur = (\d+);", src)
+    pts = sorted((int(a), int(b)) for a, b in re.findall(r"point\.insert\((\d+)u128, (\d+)\);", src))
+    tree = re.findall(r"if state < (\d+) \{", src)
+    stacks = []
+    for i, body in re.findall(r"stack\.data\[(\d+)\] = vec!\[(.*?)\]\.iter\(\)", src):
+        vals = re.findall(r'"((?:[^"\\]|\\.)*)", ', body)
+        stacks.append((int(i), vals))
+    stacks.sort()
+    return "blocks=%d|start=%s|last=%s|cur=%s|points=%s|tree=%s|stacks=%s" % (
+        blocks, st[0] if st else "0", (last[0][1] if last and last[0][0] != "None" else "-"), cur[0] if cur else "3",
+        ",".join("%d:%d" % p for p in pts), ",".join(tree), ";".join("%d:%s" % (i, ",".join(v)) for i, v in stacks))
+
+
+def ir_of_model(line):
+    f = dict(x.split("=", 1) for x in line.split("|") if "=" in x)
+    return "blocks=%s|start=%s|last=%s|cur=%s|points=%s|tree=%s|stacks=%s" % (
+        f.get("blocks"), f.get("start"), f.get("last"), f.get("cur"), f.get("points"), f.get("tree"), f.get("stacks"))
+
+
 def run(prop, tier, seed):
     V = C.Verdict(prop, tier, seed)
     rng = random.Random(seed)
@@ -78,6 +104,26 @@ def run(prop, tier, seed):
             pass
         return ("ran", "", res)
     results = C.pmap(build_and_run, range(len(jobs)))
+    # structure of the emitted program against the compiler model's IR, and the IR's run against the definition
+    mir = C.run_model(["compir 1 %d %s" % (lv, G.cps(cases[k][1])) for k, lv in jobs])
+    mrun = C.run_model(["comp 1 %d 20000 %s %s" % (lv, G.cps(cases[k][1]), G.cps(cases[k][2])) for k, lv in jobs])
+    corr = []
+    for (k, lv), src, mi, mr in zip(jobs, srcs, mir, mrun):
+        if not src.startswith("src:"):
+            if mi != "none":
+                corr.append((k, lv, "model compiles, implementation does not", src, mi))
+            continue
+        if mi == "none":
+            corr.append((k, lv, "implementation compiles, model does not", "", mi))
+            continue
+        a = ir_of_source(bytes.fromhex(src[4:]).decode("utf-8"))
+        b = ir_of_model(mi)
+        if a != b and not (a.startswith("blocks=0|") and b.startswith("blocks=0|")):
+            corr.append((k, lv, "emitted structure", a, b))
+        end = specs[k][0]
+        sp = "END:%s|o=%s|e=%s" % (end, ".".join(str(ord(c)) for c in specs[k][1]), ".".join(str(ord(c)) for c in specs[k][2]))
+        if end != "fuel" and not mr.startswith("END:fuel") and mr != sp and not end.startswith("err"):
+            corr.append((k, lv, "IR run vs language definition", mr[:200], sp[:200]))
     distinct = set()
     fails = []
     for (k, lv), (st, msg, res) in zip(jobs, results):
@@ -108,6 +154,12 @@ def run(prop, tier, seed):
         V.violation(ident, "program %r with stdin %r compiled at level %d: %s: %s; interpreting it unoptimised gives %r"
                     % (prog, stdin, lv, kind, detail, specs[k]),
                     dict(program=prog, stdin=stdin, level=lv, kind=kind, detail=detail, spec=list(specs[k])))
+    if corr and not fails:
+        k, lv, why, a, b = corr[0]
+        V.violation("correspondence:" + prop, "compiler model/implementation correspondence no longer checks (%s, level %d) on %r: %s vs %s"
+                    % (why, lv, cases[k][1], a[:300], b[:300]),
+                    dict(correspondence="L0 compile::build_source vs L1 coq/Model/Compile.v", program=cases[k][1], level=lv, why=why,
+                         implementation=a, model=b, disagreements=len(corr)), found_input=False)
     if not pc["ok"]:
         V.violation("proof:" + prop, "proof obligations of %s do not check: %s" % (prop, "; ".join(pc["problems"])),
                     dict(theorem_file="coq/Props/%s.v" % prop, problems=pc["problems"]), found_input=False)
@@ -115,6 +167,7 @@ def run(prop, tier, seed):
         obligations=pc["obligations"], discharged=pc["discharged"], supporting_lemmas=pc["supporting_lemmas"],
         checker_cmd="make -C coq Props/%s.vo && coqc -Q coq HV coq/Props/%s.v (Print Assumptions) ; python3 tools/check.py --property %s --tier %s"
                     % (prop, prop, prop, tier),
+        correspondence_disagreements=len(corr),
         trusted_base=C.TRUSTED_BASE + ["rustc and the number-only build of /repo (emitted programs are compiled and executed, not modelled)"],
         axioms=pc["axioms"], proof_files=pc["files"],
         evaluations=len(jobs), distinct_nontrivial=len(distinct),
